@@ -404,7 +404,16 @@ func c17Read(ctx *core.Ctx, idx int) core.Result {
 		for j := 0; j < n; j++ {
 			sb.WriteByte("abc xyz,;\"[]{}0123456789\t"[r.Intn(25)])
 		}
-		lines = append(lines, fmt.Sprintf("%d:", i)+sb.String()+"\n")
+		line := fmt.Sprintf("%d:", i) + sb.String()
+		switch r.Intn(8) {
+		case 0:
+			line = "" // an empty line is a line
+		case 1:
+			line += "\r" // a carriage return before the line break belongs to the line
+		case 2:
+			line = "\r"
+		}
+		lines = append(lines, line+"\n")
 	}
 	input := strings.Join(lines, "")
 	k := r.Range(0, nlines+2)
